@@ -521,6 +521,11 @@ func boundFacts(facts []fact, v ssa.Value, of ssa.Value) (lower, upper bool) {
 	for _, f := range facts {
 		be, ok := f.cond.(*ssa.BinOp)
 		if !ok {
+			// a bounds predicate: if !o.validIndex(idx) { fail }
+			if pc, isCall := f.cond.(*ssa.Call); isCall && f.taken {
+				l2, u2 := predicateBounds(pc, sv, of)
+				lower, upper = lower || l2, upper || u2
+			}
 			continue
 		}
 		x, y, op := be.X, be.Y, be.Op
@@ -554,6 +559,113 @@ func boundFacts(facts []fact, v ssa.Value, of ssa.Value) (lower, upper bool) {
 		}
 	}
 	return
+}
+
+// predicateBounds: call invokes a small side-effect-free predicate of the
+// repository; what a true result says about the argument that is v: every way
+// the predicate can return true passes a lower / an upper bound test of the
+// corresponding parameter (the upper bound against the length of the same
+// field of the same receiver as `of`, or against a constant when of is nil).
+func predicateBounds(call *ssa.Call, v ssa.Value, of ssa.Value) (lower, upper bool) {
+	f := call.Call.StaticCallee()
+	if f == nil || f.Blocks == nil || len(f.Blocks) > 6 || f.Signature.Results().Len() != 1 {
+		return false, false
+	}
+	var prm *ssa.Parameter
+	for i, a := range call.Call.Args {
+		if i < len(f.Params) && stripConv(a) == v {
+			prm = f.Params[i]
+		}
+	}
+	if prm == nil {
+		return false, false
+	}
+	// the callee-side slice that corresponds to `of`: the same field of the
+	// parameter that receives the owner of `of`
+	var calleeOf ssa.Value
+	if of != nil {
+		if ld, ok := of.(*ssa.UnOp); ok && ld.Op == token.MUL {
+			if fa, ok := ld.X.(*ssa.FieldAddr); ok {
+				for i, a := range call.Call.Args {
+					if i < len(f.Params) && (a == fa.X || sameValue(a, fa.X)) {
+						// find the load of that field in the callee
+						for _, b := range f.Blocks {
+							for _, ins := range b.Instrs {
+								if l2, ok := ins.(*ssa.UnOp); ok && l2.Op == token.MUL {
+									if fa2, ok := l2.X.(*ssa.FieldAddr); ok && fa2.Field == fa.Field && fa2.X == ssa.Value(f.Params[i]) {
+										calleeOf = l2
+									}
+								}
+							}
+						}
+					}
+				}
+			}
+		}
+		if calleeOf == nil {
+			return false, false
+		}
+	}
+	first := true
+	for _, b := range f.Blocks {
+		ret, ok := b.Instrs[len(b.Instrs)-1].(*ssa.Return)
+		if !ok {
+			continue
+		}
+		// the ways this return can yield true
+		type way struct {
+			facts []fact
+		}
+		var ways []way
+		var collect func(r ssa.Value, at *ssa.BasicBlock, depth int) bool
+		collect = func(r ssa.Value, at *ssa.BasicBlock, depth int) bool {
+			if depth > 4 {
+				return false
+			}
+			switch x := r.(type) {
+			case *ssa.Const:
+				if x.Value != nil && x.Value.String() == "true" {
+					ways = append(ways, way{factsAt(at)})
+				}
+				return true
+			case *ssa.BinOp:
+				ways = append(ways, way{append(factsAt(at), fact{x, true})})
+				return true
+			case *ssa.Phi:
+				for i, e := range x.Edges {
+					pred := x.Block().Preds[i]
+					fs := append(factsAt(pred), edgeFact(pred, x.Block())...)
+					switch ev := e.(type) {
+					case *ssa.Const:
+						if ev.Value != nil && ev.Value.String() == "true" {
+							ways = append(ways, way{fs})
+						}
+					case *ssa.BinOp:
+						ways = append(ways, way{append(fs, fact{ev, true})})
+					default:
+						return false
+					}
+				}
+				return true
+			}
+			return false
+		}
+		if !collect(ret.Results[0], b, 0) {
+			return false, false
+		}
+		for _, w := range ways {
+			l, u := boundFacts(w.facts, prm, calleeOf)
+			if first {
+				lower, upper, first = l, u, false
+			} else {
+				lower, upper = lower && l, upper && u
+			}
+		}
+	}
+	if first {
+		return false, false
+	}
+	return lower, upper
 }
 
 func (s *decScope) ruleDIInput(rule string) {
